@@ -23,6 +23,7 @@ fn arg_for(r: &mut Rng, ty: &Type) -> ArgValue {
             0 => 0,
             1 => r.range(1, 10) as i128,
             2 => -(r.range(1, 1000) as i128),
+            3 | 4 if r.chance(2, 3) => *r.pick(&[(1i128 << 64) + 5, -(1i128 << 64) - 6, -(1i128 << 64), (1i128 << 64) - 1, 1i128 << 100, -(1i128 << 100), i128::MAX, i128::MIN + 1]),
             _ => r.range(1_000_000, 9_000_000) as i128,
         }),
         Type::Bool => ArgValue::Bool(r.chance(1, 2)),
